@@ -167,7 +167,9 @@ PROPS["C15"] = {
                   "a Put whose negative size is rejected still starts the handlers (lruCache.Put); C15 constrains successful insertions only - recorded as situation handler-fired-on-rejected-put"],
 }
 PROPS["C17"] = {
-  "runs": [{"component": "adapter", "labels": {1, 2, 3, 4, 5, 6, 10, 11, 12, 13, 14, 15}, "n_quick": 2000, "n_thorough": 20000}],
+  # only observables that do not depend on WHICH entry the memory tier evicts (that is C15's business): Get value/ok, Has,
+  # and Has of every key of the alphabet; the Put flag and spill-before-drop are evaluated by the monitors
+  "runs": [{"component": "adapter", "labels": {2, 3, 4, 15}, "n_quick": 2000, "n_thorough": 20000}],
   "anchors": ["storageCacherAdapter/storageCacherAdapter.go", "lrucache/capacity/capacityLRUCache.go", "memorydb/memorydb.go"],
   "exhaustive_claim": True,
   "rule": "exhaustive: every op sequence of length 4 (quick) / 5 (thorough) over 10 op instances on keys a,b,c (Put 40/40/40/90/150/0 B, Get a, Get b, Has c, Peek a) for (cap,bytes) in {(2,100),(1,50),(3,100)}. "
